@@ -76,7 +76,7 @@ def _collect(r, cfg, flow):
                 if s["k"] != "assign" or s["p"][1]:
                     continue
                 rv = s["rv"]
-                if rv["k"] in ("ref", "rawptr") and rv["p"][0] in guard_refs and not rv["p"][1]:
+                if rv["k"] in ("ref", "rawptr") and rv["p"][0] in guard_refs and (not rv["p"][1] or (rv["p"][1] == ["*"] and rv["p"][0] != r.guard)):
                     if s["p"][0] not in guard_refs:
                         guard_refs.add(s["p"][0])
                         changed = True
